@@ -1078,6 +1078,8 @@ class C14(Prop):
                 elif (d == "str" and tag == "sorted" and ms[-1] in ("cramerv", "tschuprowt")
                       and any(r["raw"][-1]["key"] != r["spec"][-1] for r in tabs[d]["rows"])):
                     sig = "chi2_modalities_counted_on_incomplete_rows"
+            if sig is None and tag == "maximal" and d in tabs and len(tabs[d]["filters"]) >= 2:
+                sig = "chained_filters_dropped_by_unreturned_feature"
             elif tag == "independent" and len([k for k in ms if RANKING[k]]) >= 2:
                 sig = "multi_measure_union_correlated_pair"
             elif tag == "table" and "modalities counted on the whole columns" in m:
